@@ -58,24 +58,24 @@ func checksStrings() {
 
 	// ---- Split / SplitN
 	cSplit := contract{F, P, "Split", 14, []string{
-		`len(r) >= 1 && !isNilSlice(r)`,
+		`sep != "" ==> len(r) >= 1 && !isNilSlice(r)`,
 		`sep != "" ==> ((len(r) == 1) <==> !contains(s, sep))`,
-		`len(r) == 1 ==> r[0] == s`,
+		`sep != "" && len(r) == 1 ==> r[0] == s`,
 		`sep != "" && len(r) == 2 ==> s == r[0] + sep + r[1] && !contains(r[0], sep) && !contains(r[1], sep)`,
 		`sep != "" && len(r) >= 1 ==> !contains(r[0], sep)`,
 		`sep != "" && len(r) >= 2 ==> indexOf(s, sep) == len(r[0])`,
 		`sep != "" ==> ((len(r) == 2) <==> (contains(s, sep) && !contains(substr(s, indexOf(s, sep) + len(sep), len(s)), sep)))`}}
 	cSplitN := contract{F, P, "SplitN", 22, []string{
-		`len(r) >= 1 && !isNilSlice(r)`,
+		`sep != "" && n != 0 ==> len(r) >= 1 && !isNilSlice(r)`,
 		`n == 2 && sep != "" ==> len(r) <= 2 && ((len(r) == 2) <==> contains(s, sep))`,
 		`n == 2 && sep != "" && len(r) == 2 ==> s == r[0] + sep + r[1] && !contains(r[0], sep) && indexOf(s, sep) == len(r[0])`,
 		`len(r) == 1 ==> r[0] == s`}}
 	splitClauses := func(t *T, s, sep string, r []string) {
 		e := cSplit.ensures
 		d := fmt.Sprintf("Split(%q,%q)=%q (nil=%v)", s, sep, r, r == nil)
-		t.Check(len(r) >= 1 && r != nil, e[0], "%s", d)
+		t.Check(!(sep != "") || (len(r) >= 1 && r != nil), e[0], "%s", d)
 		t.Check(!(sep != "") || ((len(r) == 1) == !contains(s, sep)), e[1], "%s", d)
-		t.Check(!(len(r) == 1) || r[0] == s, e[2], "%s", d)
+		t.Check(!(sep != "" && len(r) == 1) || r[0] == s, e[2], "%s", d)
 		t.Check(!(sep != "" && len(r) == 2) || (s == r[0]+sep+r[1] && !contains(r[0], sep) && !contains(r[1], sep)), e[3], "%s", d)
 		t.Check(!(sep != "" && len(r) >= 1) || !contains(r[0], sep), e[4], "%s", d)
 		t.Check(!(sep != "" && len(r) >= 2) || indexOf(s, sep) == len(r[0]), e[5], "%s", d)
@@ -84,7 +84,7 @@ func checksStrings() {
 	splitNClauses := func(t *T, s, sep string, n int, r []string) {
 		e := cSplitN.ensures
 		d := fmt.Sprintf("SplitN(%q,%q,%d)=%q (nil=%v)", s, sep, n, r, r == nil)
-		t.Check(len(r) >= 1 && r != nil, e[0], "%s", d)
+		t.Check(!(sep != "" && n != 0) || (len(r) >= 1 && r != nil), e[0], "%s", d)
 		t.Check(!(n == 2 && sep != "") || (len(r) <= 2 && ((len(r) == 2) == contains(s, sep))), e[1], "%s", d)
 		t.Check(!(n == 2 && sep != "" && len(r) == 2) || (s == r[0]+sep+r[1] && !contains(r[0], sep) && indexOf(s, sep) == len(r[0])), e[2], "%s", d)
 		t.Check(!(len(r) == 1) || r[0] == s, e[3], "%s", d)
@@ -125,7 +125,7 @@ func checksStrings() {
 	nonEmptySeps := all("ab.", 2)[1:]
 	ns := []int{0, -2, -1, 1, 2, 3, 4}
 	allSeps := append(append([]string{}, nonEmptySeps...), "")
-	check("Split, all seven clauses, restricted to NON-EMPTY separators (overlapping separators such as \"aa\" included)", []contract{cSplit},
+	check("Split, all seven clauses, non-empty separators (overlapping separators such as \"aa\" included)", []contract{cSplit},
 		fmt.Sprintf("all s over {a b .} up to length %d, all non-empty separators over {a b .} up to length 2", ssn), func(t *T) {
 			for _, s := range ss {
 				for _, sep := range nonEmptySeps {
@@ -134,7 +134,7 @@ func checksStrings() {
 				}
 			}
 		})
-	check("Split, all seven clauses, as declared (every separator, the EMPTY one included; clauses 1 and 3 are unconditional)", []contract{cSplit},
+	check("Split, all seven clauses, every separator (the empty one included: every clause is conditional on sep != \"\"), multi-byte input", []contract{cSplit},
 		fmt.Sprintf("all s over {a b . 0xc3 0xa9} up to length %d, separators \"\" and all strings over {a b .} up to length 2", min(ssn, 5)), func(t *T) {
 			enum("ab.\xc3\xa9", min(ssn, 5), func(s string) {
 				for _, sep := range allSeps {
@@ -143,7 +143,7 @@ func checksStrings() {
 				}
 			})
 		})
-	check("SplitN, all four clauses, restricted to n == 2 and non-empty separators (the case the verified callers use)", []contract{cSplitN},
+	check("SplitN, all four clauses, n == 2 and non-empty separators (the case the verified callers use)", []contract{cSplitN},
 		fmt.Sprintf("all s over {a b .} up to length %d, all non-empty separators over {a b .} up to length 2", ssn), func(t *T) {
 			for _, s := range ss {
 				for _, sep := range nonEmptySeps {
@@ -152,7 +152,7 @@ func checksStrings() {
 				}
 			}
 		})
-	check("SplitN, all four clauses, as declared (every n, every separator; clauses 1 and 4 are unconditional)", []contract{cSplitN},
+	check("SplitN, all four clauses, every n (0 and negative included) and every separator (the empty one included)", []contract{cSplitN},
 		fmt.Sprintf("all s over {a b .} up to length %d, separators \"\" and all strings over {a b .} up to length 2, n in %v", min(ssn, 6), ns), func(t *T) {
 			enum("ab.", min(ssn, 6), func(s string) {
 				for _, sep := range allSeps {
@@ -189,28 +189,28 @@ func checksStrings() {
 		})
 
 	// ---- ReplaceAll (C05.spec)
-	cReplaceAll := contract{"C05.spec", P, "ReplaceAll", 43, []string{`r == replaceAll(s, old, new)`}}
+	cReplaceAll := contract{"C05.spec", P, "ReplaceAll", 44, []string{`old != "" ==> r == replaceAll(s, old, new)`}}
 	rn := min(L-2, 6)
-	check("ReplaceAll is the builtin replaceAll (SMT-LIB str.replace_all), restricted to a NON-EMPTY old", []contract{cReplaceAll},
+	check("ReplaceAll is the builtin replaceAll (SMT-LIB str.replace_all) for a non-empty old", []contract{cReplaceAll},
 		fmt.Sprintf("all s over {a b} up to length %d, old over {a b} of length 1..3, new over {a b} up to length 2", rn), func(t *T) {
 			for _, s := range all("ab", rn) {
 				for _, old := range all("ab", 3)[1:] {
 					for _, nw := range all("ab", 2) {
 						t.Case()
 						r := strings.ReplaceAll(s, old, nw)
-						t.Check(r == replaceAllSMT(s, old, nw), cReplaceAll.ensures[0], "ReplaceAll(%q,%q,%q)=%q, builtin gives %q", s, old, nw, r, replaceAllSMT(s, old, nw))
+						t.Check(!(old != "") || r == replaceAllSMT(s, old, nw), cReplaceAll.ensures[0], "ReplaceAll(%q,%q,%q)=%q, builtin gives %q", s, old, nw, r, replaceAllSMT(s, old, nw))
 					}
 				}
 			}
 		})
-	check("ReplaceAll is the builtin replaceAll, as declared (old may be empty: str.replace_all leaves s unchanged then)", []contract{cReplaceAll},
+	check("ReplaceAll, every old (nothing is claimed for the empty one, where Go inserts new around every rune and str.replace_all does not)", []contract{cReplaceAll},
 		fmt.Sprintf("all s over {a b} up to length %d, old over {a b} up to length 3, new over {a b} up to length 2", rn), func(t *T) {
 			for _, s := range all("ab", rn) {
 				for _, old := range all("ab", 3) {
 					for _, nw := range all("ab", 2) {
 						t.Case()
 						r := strings.ReplaceAll(s, old, nw)
-						t.Check(r == replaceAllSMT(s, old, nw), cReplaceAll.ensures[0], "ReplaceAll(%q,%q,%q)=%q, builtin gives %q", s, old, nw, r, replaceAllSMT(s, old, nw))
+						t.Check(!(old != "") || r == replaceAllSMT(s, old, nw), cReplaceAll.ensures[0], "ReplaceAll(%q,%q,%q)=%q, builtin gives %q", s, old, nw, r, replaceAllSMT(s, old, nw))
 					}
 				}
 			}
